@@ -60,66 +60,83 @@ def getData (b : SecBuf) : SecBuf :=
 def freeData (b : SecBuf) : SecBuf :=
   if b.isLazy then { b with data := none, isLoaded := false } else b
 
-/-- `set_data(raw, size)`; `raw = none` is a null pointer -/
-def setData (b : SecBuf) (raw : Option Bytes) (sz : BitVec 64) : M SecBuf := do
-  let notNobits := match b.cls with
-    | .c32 => sec32_set_data_not_nobits b.stype
-    | .c64 => sec64_set_data_not_nobits b.stype
-  let b ←
-    if notNobits then
-      let n := match b.cls with
-        | .c32 => sec32_set_data_alloc sz
-        | .c64 => sec64_set_data_alloc sz
-      let buf := alloc n.toNat
-      match raw with
-      | some r =>
-        let src ← rdRange "set_data/copy-src" (some r) 0 sz.toNat
-        let d ← wrRange "set_data/copy" (some buf) 0 src
-        pure { b with data := d, dataSize := sz }
-      | none => pure { b with data := some buf, dataSize := 0 }
-    else pure b
+/-- tail of `set_data`: `set_size(data_size)` and the stream-size bookkeeping -/
+def setFinish (b : SecBuf) : SecBuf :=
   let b := b.setSize b.dataSize
-  pure (if b.translatorEmpty then { b with streamSize := b.dataSize } else b)
+  if b.translatorEmpty then { b with streamSize := b.dataSize } else b
 
-/-- `insert_data(pos, raw, raw.length)` -/
-def insertData (b : SecBuf) (pos : BitVec 64) (raw : Bytes) : M SecBuf := do
+/-- `set_data(raw, size)`; `raw = none` is a null pointer -/
+def setData (b : SecBuf) (raw : Option Bytes) (sz : BitVec 64) : M SecBuf :=
+  let c32 := b.cls == .c32
+  if (if c32 then sec32_set_data_not_nobits b.stype else sec64_set_data_not_nobits b.stype) then
+    let n := if c32 then sec32_set_data_alloc sz else sec64_set_data_alloc sz
+    match raw with
+    | some r => do
+      let src ← rdRange "set_data/copy-src" (some r) 0 sz.toNat
+      let d ← wrRange "set_data/copy" (some (alloc n.toNat)) 0 src
+      pure (setFinish { b with data := d, dataSize := sz })
+    | none => pure (setFinish { b with data := some (alloc n.toNat), dataSize := 0 })
+  else pure (setFinish b)
+
+/-- in-place branch: `copy_backward(d+pos, d+size, d+size+n); copy(raw, raw+n, d+pos)` -/
+def insertInPlace (b : SecBuf) (pos : Nat) (raw : Bytes) : M (Option Bytes) := do
+  let tail ← rdRange "insert_data/copy_backward-src" b.data pos (b.size.toNat - pos)
+  let d ← wrRange "insert_data/copy_backward" b.data (pos + raw.length) tail
+  wrRange "insert_data/copy" d pos raw
+
+/-- growing branch: three `std::copy`s into a fresh allocation of `nds` bytes -/
+def insertGrow (b : SecBuf) (pos : Nat) (raw : Bytes) (nds : Nat) : M (Option Bytes) := do
+  let head ← rdRange "insert_data/copy-head-src" b.data 0 pos
+  let d ← wrRange "insert_data/copy-head" (some (alloc nds)) 0 head
+  let d ← wrRange "insert_data/copy-new" d pos raw
+  let tail ← rdRange "insert_data/copy-tail-src" b.data pos (b.size.toNat - pos)
+  wrRange "insert_data/copy-tail" d (pos + raw.length) tail
+
+/-- `2*data_size + size` behind its three overflow guards (`none`: a guard fired) -/
+def growSize (c32 : Bool) (dataSize n : BitVec 64) : Option (BitVec 64) :=
+  if (if c32 then sec32_insert_ovf_dbl dataSize else sec64_insert_ovf_dbl dataSize) then none else
+  let nds := if c32 then sec32_insert_dbl dataSize else sec64_insert_dbl dataSize
+  if (if c32 then sec32_insert_ovf_add n nds else sec64_insert_ovf_add n nds) then none else
+  let nds := if c32 then sec32_insert_dbl_add nds n else sec64_insert_dbl_add nds n
+  if (if c32 then sec32_insert_ovf_sizet nds else sec64_insert_ovf_sizet nds) then none else
+  some nds
+
+/-- tail of `insert_data`: `set_size(new_size)` and the stream-size bookkeeping -/
+def insertFinish (b : SecBuf) (newSize n : BitVec 64) : SecBuf :=
+  let b := b.setSize newSize
+  if b.translatorEmpty then { b with streamSize := b.streamSize + n } else b
+
+/-- `insert_data` after the residency step -/
+def insertBody (b : SecBuf) (pos : BitVec 64) (raw : Bytes) : M SecBuf :=
   let n : BitVec 64 := BitVec.ofNat 64 raw.length
   let c32 := b.cls == .c32
-  if !(if c32 then sec32_insert_not_nobits b.stype else sec64_insert_not_nobits b.stype) then
-    return b
-  let b := if (if c32 then sec32_insert_make_resident b.isLazy b.isLoaded
-                     else sec64_insert_make_resident b.isLazy b.isLoaded) then b.getData else b
   if (if c32 then sec32_insert_pos_gt_size pos b.size else sec64_insert_pos_gt_size pos b.size) then
-    return b
-  let newSize := b.size
-  if (if c32 then sec32_insert_ovf_size n newSize else sec64_insert_ovf_size n newSize) then
-    return b
-  let newSize := if c32 then sec32_insert_new_size newSize n else sec64_insert_new_size newSize n
-  let tailLen := b.size.toNat - pos.toNat
-  let b ←
-    if (if c32 then sec32_insert_fits_inplace newSize b.dataSize
-              else sec64_insert_fits_inplace newSize b.dataSize) then do
-      -- copy_backward(d+pos, d+size, d+size+n) ; copy(raw, raw+n, d+pos)
-      let tail ← rdRange "insert_data/copy_backward-src" b.data pos.toNat tailLen
-      let d ← wrRange "insert_data/copy_backward" b.data (pos.toNat + raw.length) tail
-      let d ← wrRange "insert_data/copy" d pos.toNat raw
-      pure { b with data := d }
-    else do
-      let nds := b.dataSize
-      if (if c32 then sec32_insert_ovf_dbl nds else sec64_insert_ovf_dbl nds) then return b
-      let nds := if c32 then sec32_insert_dbl nds else sec64_insert_dbl nds
-      if (if c32 then sec32_insert_ovf_add n nds else sec64_insert_ovf_add n nds) then return b
-      let nds := if c32 then sec32_insert_dbl_add nds n else sec64_insert_dbl_add nds n
-      if (if c32 then sec32_insert_ovf_sizet nds else sec64_insert_ovf_sizet nds) then return b
-      let nb := alloc nds.toNat
-      let head ← rdRange "insert_data/copy-head-src" b.data 0 pos.toNat
-      let d ← wrRange "insert_data/copy-head" (some nb) 0 head
-      let d ← wrRange "insert_data/copy-new" d pos.toNat raw
-      let tail ← rdRange "insert_data/copy-tail-src" b.data pos.toNat tailLen
-      let d ← wrRange "insert_data/copy-tail" d (pos.toNat + raw.length) tail
-      pure { b with data := d, dataSize := nds }
-  let b := b.setSize newSize
-  pure (if b.translatorEmpty then { b with streamSize := b.streamSize + n } else b)
+    pure b
+  else
+  if (if c32 then sec32_insert_ovf_size n b.size else sec64_insert_ovf_size n b.size) then
+    pure b
+  else
+  let newSize := if c32 then sec32_insert_new_size b.size n else sec64_insert_new_size b.size n
+  if (if c32 then sec32_insert_fits_inplace newSize b.dataSize
+            else sec64_insert_fits_inplace newSize b.dataSize) then do
+    let d ← insertInPlace b pos.toNat raw
+    pure (insertFinish { b with data := d } newSize n)
+  else
+    match growSize c32 b.dataSize n with
+    | none => pure b
+    | some nds => do
+      let d ← insertGrow b pos.toNat raw nds.toNat
+      pure (insertFinish { b with data := d, dataSize := nds } newSize n)
+
+/-- `insert_data(pos, raw, raw.length)` -/
+def insertData (b : SecBuf) (pos : BitVec 64) (raw : Bytes) : M SecBuf :=
+  let c32 := b.cls == .c32
+  if !(if c32 then sec32_insert_not_nobits b.stype else sec64_insert_not_nobits b.stype) then
+    pure b
+  else
+    insertBody (if (if c32 then sec32_insert_make_resident b.isLazy b.isLoaded
+                           else sec64_insert_make_resident b.isLazy b.isLoaded)
+                then b.getData else b) pos raw
 
 /-- `append_data(raw, n)` = `insert_data(get_size(), raw, n)` -/
 def appendData (b : SecBuf) (raw : Bytes) : M SecBuf := insertData b b.size raw
